@@ -49,7 +49,7 @@ theorem AllOK_nil : AllOK U HS ([] : List (Line P S V M)) := by
   intro i l h; simp at h
 
 /-- the invariant of the reporter state -/
-structure RInv (r : Reporter P S V M) : Prop where
+structure RepInv (r : Reporter P S V M) : Prop where
   shared : ∀ id k, SmallMap.get r.sharedWithRef id = some k → ∀ tt a b, G (.derived tt (some id) a b) →
     RefOK r.lines k tt ∧ ∀ e ∈ (DerivationTree.derived tt (some id) a b).externals, e ∈ namedAll r.lines
   refs : allRefs r.lines = List.range' 1 r.refCount
@@ -68,7 +68,7 @@ theorem Le.trans {r1 r2 r3 : Reporter P S V M} (h12 : Le r1 r2) (h23 : Le r2 r3)
   ⟨fun id k h => h23.shared id k (h12.shared id k h), fun e h => h23.named e (h12.named e h),
    fun k tt h => h23.ref k tt (h12.ref k tt h)⟩
 
-theorem RInv.new : RInv G U HS (Reporter.new : Reporter P S V M) := by
+theorem RepInv.new : RepInv G U HS (Reporter.new : Reporter P S V M) := by
   refine ⟨?_, ?_, ?_, AllOK_nil U HS⟩
   · intro id k h; simp [Reporter.new, SmallMap.get] at h
   · simp [Reporter.new, allRefs]
@@ -76,7 +76,7 @@ theorem RInv.new : RInv G U HS (Reporter.new : Reporter P S V M) := by
 
 variable {G U HS}
 
-theorem RInv.ref_le {r : Reporter P S V M} (h : RInv G U HS r) {l : Line P S V M} (hl : l ∈ r.lines)
+theorem RepInv.ref_le {r : Reporter P S V M} (h : RepInv G U HS r) {l : Line P S V M} (hl : l ∈ r.lines)
     {k : Nat} (hk : k ∈ l.refs) : k ≤ r.refCount := by
   have : k ∈ allRefs r.lines := mem_allRefs.mpr ⟨l, hl, hk⟩
   rw [h.refs] at this
@@ -86,8 +86,8 @@ theorem RInv.ref_le {r : Reporter P S V M} (h : RInv G U HS r) {l : Line P S V M
 theorem Reporter.push_lines (r : Reporter P S V M) (st : Step P S V M) :
     (r.push st).lines = r.lines ++ [{ step := st, refs := [] }] := rfl
 
-theorem RInv.push {r : Reporter P S V M} (h : RInv G U HS r) {st : Step P S V M}
-    (hst : StepOK U HS r.lines st) : RInv G U HS (r.push st) := by
+theorem RepInv.push {r : Reporter P S V M} (h : RepInv G U HS r) {st : Step P S V M}
+    (hst : StepOK U HS r.lines st) : RepInv G U HS (r.push st) := by
   refine ⟨?_, ?_, ?_, ?_⟩
   · intro id k hg tt a b hG
     obtain ⟨h1, h2⟩ := h.shared id k hg tt a b hG
@@ -135,7 +135,7 @@ theorem Reporter.addLineRef_refCount (r : Reporter P S V M) :
 theorem Reporter.addLineRef_shared (r : Reporter P S V M) :
     r.addLineRef.sharedWithRef = r.sharedWithRef := rfl
 
-theorem Le.addLineRef {r : Reporter P S V M} (h : RInv G U HS r) {l : Line P S V M}
+theorem Le.addLineRef {r : Reporter P S V M} (h : RepInv G U HS r) {l : Line P S V M}
     (hl : r.lines.getLast? = some l) : Le r r.addLineRef := by
   have hlines := lines_eq_of_getLast hl
   refine ⟨fun _ _ h => h, ?_, ?_⟩
@@ -150,8 +150,8 @@ theorem Le.addLineRef {r : Reporter P S V M} (h : RInv G U HS r) {l : Line P S V
     rw [hlines] at hk
     exact hk.addRef (by omega)
 
-theorem RInv.addLineRef {r : Reporter P S V M} (h : RInv G U HS r) {l : Line P S V M}
-    (hl : r.lines.getLast? = some l) (hrefs : l.refs = []) : RInv G U HS r.addLineRef := by
+theorem RepInv.addLineRef {r : Reporter P S V M} (h : RepInv G U HS r) {l : Line P S V M}
+    (hl : r.lines.getLast? = some l) (hrefs : l.refs = []) : RepInv G U HS r.addLineRef := by
   have hlines := lines_eq_of_getLast hl
   have hle := Le.addLineRef h hl
   refine ⟨?_, ?_, ?_, ?_⟩
@@ -174,7 +174,7 @@ theorem RInv.addLineRef {r : Reporter P S V M} (h : RInv G U HS r) {l : Line P S
     exact this
 
 /-- the fresh number resolves to the line that just got it -/
-theorem RefOK.addLineRef {r : Reporter P S V M} (h : RInv G U HS r) {l : Line P S V M}
+theorem RefOK.addLineRef {r : Reporter P S V M} (h : RepInv G U HS r) {l : Line P S V M}
     (hl : r.lines.getLast? = some l) {tt : List (P × Term S)} (hc : l.step.conclusion = some tt) :
     RefOK r.addLineRef.lines (r.refCount + 1) tt := by
   have hlines := lines_eq_of_getLast hl
@@ -190,10 +190,10 @@ theorem Reporter.addLineRef_getLast {r : Reporter P S V M} {l : Line P S V M}
   rw [Reporter.addLineRef_lines hl]; simp
 
 /-- recording a number for a shared id -/
-theorem RInv.insert {r : Reporter P S V M} (h : RInv G U HS r) (id k : Nat)
+theorem RepInv.insert {r : Reporter P S V M} (h : RepInv G U HS r) (id k : Nat)
     (hnew : ∀ tt a b, G (.derived tt (some id) a b) →
       RefOK r.lines k tt ∧ ∀ e ∈ (DerivationTree.derived tt (some id) a b).externals, e ∈ namedAll r.lines) :
-    RInv G U HS { r with sharedWithRef := SmallMap.insert r.sharedWithRef id k } := by
+    RepInv G U HS { r with sharedWithRef := SmallMap.insert r.sharedWithRef id k } := by
   refine ⟨?_, h.refs, h.one, h.ok⟩
   intro id' k' hg tt a b hG
   dsimp only at hg
